@@ -212,6 +212,7 @@ pub struct Sim {
     // monitors
     leaders: HashMap<u64, u64>,                       // term -> effective leader id
     committed: BTreeMap<u64, (u64, u64, u64)>,        // index -> (term, kind, digest) reported committed
+    leader_committed: BTreeMap<u64, (u64, u64, u64)>, // index -> entry, recorded when a *leader* advanced its commit index over it
     ref_app: BTreeMap<u64, (u64, ConfState)>,         // index -> (digest, cs) of the application state
     released_as_leader: HashMap<(u64, u64), u64>,     // (term, id) -> incarnation
     reads: HashMap<Vec<u8>, (u64, u64)>,              // ctx -> (issuing node, max commit at issue)
@@ -244,6 +245,10 @@ fn fmt_ids(v: &[u64]) -> String {
 
 fn fmt_cfg(cs: &ConfState) -> String {
     format!("{} {}", fmt_ids(cs.get_voters()), fmt_ids(cs.get_voters_outgoing()))
+}
+
+fn pre_last_index(v: &View) -> u64 {
+    v.first + v.entries.len() as u64 - 1
 }
 
 fn role_p(s: StateRole) -> u64 {
@@ -331,7 +336,7 @@ impl Sim {
         let mut sim = Sim {
             nodes, net: vec![], rng, logger, history: vec![header], ptrace: vec![], p_active: params.emit_p,
             p_end_reason: String::new(), violations: vec![], stats: BTreeMap::new(), step_no: 0, params, async_mode,
-            next_payload: 1, leaders: HashMap::new(), committed: BTreeMap::new(), ref_app: BTreeMap::new(),
+            next_payload: 1, leaders: HashMap::new(), committed: BTreeMap::new(), leader_committed: BTreeMap::new(), ref_app: BTreeMap::new(),
             released_as_leader: HashMap::new(), reads: HashMap::new(), max_commit: 0, seen_commit: HashMap::new(),
             last_conf: HashMap::new(),
         };
@@ -350,6 +355,9 @@ impl Sim {
     }
 
     fn violate(&mut self, prop: &'static str, text: String) {
+        if self.violations.iter().any(|v| v.prop == prop && v.text == text) {
+            return;
+        }
         self.log(format!("VIOLATION {} {}", prop, text));
         if self.violations.len() < 20 {
             self.violations.push(Violation { prop, text, step: self.step_no });
@@ -408,6 +416,13 @@ impl Sim {
             None => format!("p view {} 0 0 0 0 0 0 1 0 {} -> ok", n.id, dpart),
         };
         self.ptrace.push(line);
+    }
+
+    /// term of the entry just below the first retained one (the snapshot / compaction point)
+    fn boundary_term(&self, i: usize) -> u64 {
+        let rn = self.nodes[i].rn.as_ref().unwrap();
+        let f = rn.raft.raft_log.first_index();
+        if f <= 1 { 0 } else { rn.raft.raft_log.term(f - 1).unwrap_or(0) }
     }
 
     fn effective(&self, i: usize) -> bool {
@@ -473,6 +488,39 @@ impl Sim {
         for m in &gen {
             if m.get_msg_type() == MessageType::MsgRequestVoteResponse && !m.reject {
                 self.pev(i, format!("grant {} {}", id, m.to));
+            }
+            // C03 monitor: the election restriction, on every (pre-)vote grant
+            if (m.get_msg_type() == MessageType::MsgRequestVoteResponse || m.get_msg_type() == MessageType::MsgRequestPreVoteResponse) && !m.reject {
+                if let Some(req) = input {
+                    if (req.get_msg_type() == MessageType::MsgRequestVote || req.get_msg_type() == MessageType::MsgRequestPreVote) && req.from == m.to {
+                        let (vt, vi) = (pre.entries.last().map(|e| e.0).unwrap_or_else(|| self.boundary_term(i)), pre_last_index(pre));
+                        if (req.log_term, req.index) < (vt, vi) {
+                            self.violate("C03", format!("n{} granted {:?} to n{} whose last (term, index) = ({}, {}) is behind its own ({}, {})", id, m.get_msg_type(), m.to, req.log_term, req.index, vt, vi));
+                        }
+                    }
+                }
+            }
+        }
+        // C03 monitor: a new leader holds every entry reported committed so far
+        if post.state == StateRole::Leader && (pre.state != StateRole::Leader || !same_term) {
+            let mut missing = None;
+            for (k, e) in post.entries.iter().enumerate() {
+                let idx = post.first + k as u64;
+                if let Some(c) = self.committed.get(&idx) {
+                    if c != e {
+                        missing = Some((idx, *e, *c));
+                        break;
+                    }
+                }
+            }
+            let last = post.first + post.entries.len() as u64 - 1;
+            if missing.is_none() {
+                if let Some((&idx, c)) = self.committed.range(last + 1..).next() {
+                    missing = Some((idx, (0, 0, 0), *c));
+                }
+            }
+            if let Some((idx, have, want)) = missing {
+                self.violate("C03", format!("n{} became leader of term {} but at committed index {} it holds {:?} instead of {:?}", id, post.term, idx, have, want));
             }
         }
         // log
@@ -560,6 +608,33 @@ impl Sim {
                 self.violate("C04", format!("leader n{} of term {} advanced its commit index to {} whose entry has term {}", id, post.term, c, ct));
             } else if c >= post.first && !ok_under(&conf) && !ok_under(&prevc) {
                 self.violate("C04", format!("leader n{} committed index {} (term {}) without a durable majority of {:?}/{:?}", id, c, ct, conf.get_voters(), conf.get_voters_outgoing()));
+            }
+        }
+        // C04 (non-leader half): a non-leader's commit index never moves over an entry that no leader committed
+        if post.commit > pre.commit {
+            let lo = (pre.commit + 1).max(post.first);
+            if post.state == StateRole::Leader {
+                for idx in lo..=post.commit {
+                    if let Some(e) = post.entries.get((idx - post.first) as usize) {
+                        self.leader_committed.entry(idx).or_insert(*e);
+                    }
+                }
+            } else if pre.state != StateRole::Leader {
+                for idx in lo..=post.commit {
+                    if let Some(e) = post.entries.get((idx - post.first) as usize) {
+                        match self.leader_committed.get(&idx) {
+                            Some(c) if c == e => {}
+                            Some(c) => {
+                                self.violate("C04", format!("non-leader n{} advanced its commit index to {} over entry {:?} at index {}, but the leader committed {:?} there", id, post.commit, e, idx, c));
+                                break;
+                            }
+                            None => {
+                                self.violate("C04", format!("non-leader n{} advanced its commit index to {} over index {} ({:?}) which no leader has committed", id, post.commit, idx, e));
+                                break;
+                            }
+                        }
+                    }
+                }
             }
         }
         self.last_conf.insert(id, conf);
@@ -1174,8 +1249,15 @@ impl Sim {
         let n_nodes = self.members();
         for s in 0..self.params.steps {
             self.step_no = s;
-            if !self.violations.is_empty() {
+            if self.violations.len() >= 12 || self.violations.iter().any(|v| v.prop == "C20") {
                 break;
+            }
+            if let Some(first) = self.violations.first() {
+                // keep going for a while: a violation of one property often leads to a concrete
+                // violation of another (e.g. a malformed append to diverging logs)
+                if s > first.step + 400 {
+                    break;
+                }
             }
             let i = self.rng.below(n_nodes as u64) as usize;
             let op = self.rng.below(100);
@@ -1293,7 +1375,7 @@ impl Sim {
                 });
             }
             self.monitors();
-            if !self.violations.is_empty() {
+            if self.violations.iter().any(|v| v.prop == "C20") {
                 return;
             }
         }
